@@ -5,7 +5,9 @@
 (* Directory: fs : key -> "A" absent | "P" present, not a complete valid    *)
 (* file | "C" complete and valid (an AP shank file: byte-identical to the   *)
 (* original's columns; a .cbin: decompresses to that; an LF file: right     *)
-(* shape and sync; a folder: exists).                                       *)
+(* shape and sync; a folder: exists) | "Q" a complete and valid conversion  *)
+(* of the first `nsamples` samples only (option `part`: the object was      *)
+(* parameterised with init_params(nsamples = k < ns)).                       *)
 (*   orig / origc          original binary, uncompressed / compressed       *)
 (*   dir<s> ap<s> apc<s> apm<s> lf<s> lfc<s> lfm<s>    per shank s          *)
 (* (NP2.1: a single pseudo shank 0 living next to the original.)            *)
@@ -15,7 +17,10 @@
 (* the sequence of steps of process(); `Crash` interrupts it after any      *)
 (* step.  Implementation layer = the steps as the code performs them        *)
 (* (Variant "orig": before the fix: commit F5, the unconditional unlink of  *)
-(* a stale .cbin raises when there is none).                                *)
+(* a stale .cbin raises when there is none; Variant "partdel": before the   *)
+(* fix that keeps the original when only part of it was converted - the     *)
+(* verification compares the converted prefix only, so it succeeds and the   *)
+(* original used to be deleted with it).                                    *)
 (***************************************************************************)
 EXTENDS Integers, Sequences, FiniteSets, TLC
 
@@ -44,7 +49,8 @@ VARIABLES kind,       \* probe kind of the input (fixed along a behaviour)
 
 vars == <<kind, fs, opts, rpc, widx, cs, cph, csub, checkDone, verified, status, nruns, fs0>>
 
-Opts == [ow : BOOLEAN, chk : BOOLEAN, cmp : BOOLEAN, del : BOOLEAN]
+Opts == [ow : BOOLEAN, chk : BOOLEAN, cmp : BOOLEAN, del : BOOLEAN, part : BOOLEAN]
+DoneSt(o) == IF o.part THEN "Q" ELSE "C"     \* what a finished window loop leaves
 ShOf(k) == IF k = "NP24" THEN Sh ELSE {0}
 Set1(f, key, v) == [f EXCEPT ![key] = v]
 SetAll(f, p, S, v) == [x \in DOMAIN f |-> IF \E s \in S : x = K(p, s) THEN v ELSE f[x]]
@@ -56,7 +62,7 @@ Init ==
          fs = [x \in Keys |-> IF x = "orig" THEN (IF form = "bin" THEN "C" ELSE "A")
                               ELSE IF x = "origc" THEN (IF form = "cbin" THEN "C" ELSE "A")
                               ELSE IF kind = "NP21" /\ x = "dir0" THEN "C" ELSE "A"]
-    /\ opts = [ow |-> FALSE, chk |-> FALSE, cmp |-> FALSE, del |-> FALSE]
+    /\ opts = [ow |-> FALSE, chk |-> FALSE, cmp |-> FALSE, del |-> FALSE, part |-> FALSE]
     /\ rpc = "idle" /\ widx = 0 /\ cs = 0 /\ cph = "ap" /\ csub = "stale" /\ checkDone = FALSE /\ verified = FALSE
     /\ status = "none" /\ nruns = 0 /\ fs0 = fs
 
@@ -107,7 +113,7 @@ Window ==
     /\ rpc = "window" /\ widx < NW
     /\ widx' = widx + 1
     /\ IF widx + 1 = NW
-       THEN /\ fs' = (IF kind = "NP24" THEN SetAll(SetAll(fs, "ap", Sh, "C"), "lf", Sh, "C") ELSE Set1(fs, "lf0", "C"))
+       THEN /\ fs' = (IF kind = "NP24" THEN SetAll(SetAll(fs, "ap", Sh, DoneSt(opts)), "lf", Sh, DoneSt(opts)) ELSE Set1(fs, "lf0", DoneSt(opts)))
             /\ rpc' = "close"
        ELSE fs' = fs /\ rpc' = "window"
     /\ UNCHANGED <<kind, opts, cs, cph, csub, checkDone, verified, status, nruns, fs0>>
@@ -155,7 +161,7 @@ CompressOrigRm ==
 StaleNow == csub = "stale"
 UnlinkStale ==         \* only when overwrite
     /\ rpc = "compress" /\ StaleNow /\ opts.ow
-    /\ (Variant = "fixed" \/ fs[CbinKey] # "A")
+    /\ (Variant # "orig" \/ fs[CbinKey] # "A")
     /\ fs' = Set1(fs, CbinKey, "A") /\ csub' = "comp"
     /\ UNCHANGED <<kind, opts, rpc, widx, cs, cph, checkDone, verified, status, nruns, fs0>>
 UnlinkStaleRaises ==   \* before the fix: FileNotFoundError when there is no stale file
@@ -164,7 +170,7 @@ UnlinkStaleRaises ==   \* before the fix: FileNotFoundError when there is no sta
     /\ fs' = fs /\ Finish("raised")
 CompressFile ==
     /\ rpc = "compress" /\ csub = "comp"
-    /\ fs' = Set1(fs, CbinKey, "C") /\ csub' = "rmbin"
+    /\ fs' = Set1(fs, CbinKey, fs[BinKey]) /\ csub' = "rmbin"        \* lossless: a partial conversion stays one
     /\ UNCHANGED <<kind, opts, rpc, widx, cs, cph, checkDone, verified, status, nruns, fs0>>
 UnlinkBin ==
     /\ rpc = "compress" /\ csub = "rmbin"
@@ -179,7 +185,7 @@ UnlinkBin ==
 \* delete_NP24 (entered only when delete_original is set)
 Delete ==
     /\ rpc = "delete"
-    /\ fs' = (IF checkDone /\ opts.del
+    /\ fs' = (IF checkDone /\ opts.del /\ (Variant # "fixed" \/ ~opts.part)
               THEN (IF fs["orig"] = "C" THEN Set1(fs, "orig", "A") ELSE Set1(fs, "origc", "A"))
               ELSE fs)
     /\ rpc' = "return"
@@ -214,9 +220,9 @@ CompleteSet(k, o, f) ==
     \A s \in ShOf(k) :
         /\ f[K("lfm", s)] = "C"
         /\ (k = "NP24" => f[K("apm", s)] = "C")
-        /\ IF o.cmp THEN /\ f[K("lfc", s)] = "C" /\ f[K("lf", s)] = "A"
-                         /\ (k = "NP24" => (f[K("apc", s)] = "C" /\ f[K("ap", s)] = "A"))
-           ELSE f[K("lf", s)] = "C" /\ (k = "NP24" => f[K("ap", s)] = "C")
+        /\ IF o.cmp THEN /\ f[K("lfc", s)] = DoneSt(o) /\ f[K("lf", s)] = "A"
+                         /\ (k = "NP24" => (f[K("apc", s)] = DoneSt(o) /\ f[K("ap", s)] = "A"))
+           ELSE f[K("lf", s)] = DoneSt(o) /\ (k = "NP24" => f[K("ap", s)] = DoneSt(o))
 \* outcome of a finished run: st = its status, b / e = directory at its begin / end
 OutcomeP(k, o, st, b, e) ==
     /\ st # "raised"                                                   \* no failure nobody injected
@@ -230,5 +236,5 @@ OutcomeP(k, o, st, b, e) ==
 Recoverable == RecoverableP(kind, fs)
 DeleteGuard == [][DeleteGuardP(kind, fs, fs', verified')]_vars
 Outcome == [][(rpc # "idle" /\ rpc' = "idle") => OutcomeP(kind, opts, status', fs0, fs')]_vars
-TypeOK == fs \in [Keys -> {"A", "P", "C"}]
+TypeOK == fs \in [Keys -> {"A", "P", "C", "Q"}]
 =============================================================================
